@@ -12,6 +12,7 @@ import (
 	"gverif/engine/constx"
 	"gverif/engine/decode"
 	"gverif/engine/dspx"
+	"gverif/engine/factkind"
 	"gverif/engine/factx"
 	"gverif/engine/flagx"
 	"gverif/engine/globalx"
@@ -191,7 +192,7 @@ func init() {
 
 func lapackProp(self, other, what string) *property {
 	return &property{
-		explanation: "Decides structural necessary conditions of " + self + " on the lapack/gonum routines anchored by it (and shared auxiliaries), for every path and both workspace modes: ARGS.query — with lwork == -1 the only stores are to work[0] and the only calls are queries/scalar helpers ('a workspace query touches nothing else'); OKFLOW.use/.report — the ok/unconverged status of every callee (a singular pivot from Dgetrf/Dpotrf/Dtrtrs/...) reaches a branch, field or return, and no driver returns success on the path where a callee failed; ARGS.order/.lencheck/.complete — arguments are validated before any operand write, every slice use is preceded by a branch on its length, every int/flag/slice parameter is validated; STRIDE — no operand is addressed with another operand's leading dimension, so results cannot depend on which matrix's ld was used; a strided vector handed on to BLAS keeps its own increment (STRIDE.vecinc); a workspace block is used with one leading dimension throughout a routine and the region laid out after it starts that many rows further (STRIDE.workld/.worknext); FLAG.trans on the routines that accept ConjTrans; WORKSIZE.min/.set — on every path that returns in query mode the value stored to work[0] is proved (path-wise symbolic interpretation of the prologue in a max/min-of-polynomials normal form, block sizes and nested query answers >= 1, zero/positive facts from the quick-return tests) to be at least the minimum lwork the same routine enforces with panic(badLWork), so a caller passing the queried length is never rejected; WORKSIZE.querylen — no operand length panic is reachable in query mode, the drivers query their subroutines with nil operands (found and repaired: the quick-return answers of nine routines and Dsyev's missing store). " + what,
+		explanation: "Decides structural necessary conditions of " + self + " on the lapack/gonum routines anchored by it (and shared auxiliaries), for every path and both workspace modes: ARGS.query — with lwork == -1 the only stores are to work[0] and the only calls are queries/scalar helpers ('a workspace query touches nothing else'); OKFLOW.use/.report — the ok/unconverged status of every callee (a singular pivot from Dgetrf/Dpotrf/Dtrtrs/...) reaches a branch, field or return, and no driver returns success on the path where a callee failed; ARGS.order/.lencheck/.complete — arguments are validated before any operand write, every slice use is preceded by a branch on its length, every int/flag/slice parameter is validated; STRIDE — no operand is addressed with another operand's leading dimension, so results cannot depend on which matrix's ld was used; a strided vector handed on to BLAS keeps its own increment (STRIDE.vecinc); a workspace block is used with one leading dimension throughout a routine and the region laid out after it starts that many rows further (STRIDE.workld/.worknext); FLAG.trans on the routines that accept ConjTrans; FACTKIND.pair — the Householder reflectors (a, tau) left by a QR, RQ, LQ or QL factorization routine reach only the multiply/generate routines of the same family (reaching producers on the CFG; found and repaired: Dggsvp3 applied the reflectors of Dgerq2 with Dorm2r, so mat.GSVD of a 2x5 pair panicked); LOOPIDX.origin — the key of a range over a local reslice base[lo:hi] is not used bare to index base (found and repaired in the same routine); WORKSIZE.min/.set — on every path that returns in query mode the value stored to work[0] is proved (path-wise symbolic interpretation of the prologue in a max/min-of-polynomials normal form, block sizes and nested query answers >= 1, zero/positive facts from the quick-return tests) to be at least the minimum lwork the same routine enforces with panic(badLWork), so a caller passing the queried length is never rejected; WORKSIZE.querylen — no operand length panic is reachable in query mode, the drivers query their subroutines with nil operands (found and repaired: the quick-return answers of nine routines and Dsyev's missing store). " + what,
 		assumptions: commonAssumptions,
 		run: func(tier string, res *core.Result) {
 			sc := lapackScope(res, self, other)
@@ -213,6 +214,10 @@ func lapackProp(self, other, what string) *property {
 			ok := okflow.Run(def, core.Scope{Patterns: []string{"./lapack/gonum"}, Files: sc.Files})
 			ok.Floor("status_call_sites", 10)
 			res.Merge(ok)
+			fk := factkind.Run(def, "./lapack/gonum")
+			fk.Floor("factorization_calls", 25)
+			fk.Floor("paired_consumers", 20)
+			res.Merge(fk)
 			ws := worksize.Run(def, core.Scope{Patterns: []string{"./lapack/gonum"}, Files: sc.Files}, worksizeExempt)
 			ws.Floor("routines_with_enforced_minimum", 8)
 			ws.Floor("query_answers_proved_sufficient", 30)
@@ -351,7 +356,7 @@ func init() {
 
 func init() {
 	properties["C06"] = &property{
-		explanation: "Decides the 'reported through the ok/error result rather than a silently wrong answer' clause of C06 for every call site and return of mat and lapack64: OKFLOW.use — the ok/error/unconverged result of every non-query call to a LAPACK routine or to a mat factorization/solver reaches a branch, a field, a return or another call (def-use reachability on the CFG; explicit advisory discards are a frozen table); OKFLOW.report — no function returns a constant success on the path where a callee's status was false; OKFLOW.cond — all error-returning Solve*/Inverse* methods can return Condition, every finite Condition(x) is returned exactly under x > ConditionTolerance (the one tolerance object), Condition(+Inf) only under a failed status, and receivers that store a cond estimate report it. STRIDE on the factorization files (a strided right-hand side or update vector is addressed with its own increment; its Data is treated as contiguous only under a test of Inc). FACT.normorder — the norm handed to a LAPACK condition estimator is computed before the in-place factorization of the same storage (found and repaired: BandCholesky.Cond used the norm of the factor); FACT.state — Clone/Scale/SymRankOne/ExtendVecSym/RankOne, which rebuild the receiver from another value of the same type, assign every field (found and repaired: LU.RankOne into a fresh receiver left ok == false, so Det was 0 and SolveTo failed); FACT.condunit — the reciprocal condition number returned by the lapack64 *con estimators reaches a comparison with ConditionTolerance, a Condition(...) conversion or a cond field only through an odd number of inversions (found and repaired: TriDense.InverseTri and TriDense.SolveTo compared rcond itself with the tolerance and never reported an ill-conditioned matrix); NILRECV on the factorization files. Does NOT decide reconstruction identities, update formulas or the numerical consistency of Det/LogDet/Cond across factorizations.",
+		explanation: "Decides the 'reported through the ok/error result rather than a silently wrong answer' clause of C06 for every call site and return of mat and lapack64: OKFLOW.use — the ok/error/unconverged result of every non-query call to a LAPACK routine or to a mat factorization/solver reaches a branch, a field, a return or another call (def-use reachability on the CFG; explicit advisory discards are a frozen table); OKFLOW.report — no function returns a constant success on the path where a callee's status was false; OKFLOW.cond — all error-returning Solve*/Inverse* methods can return Condition, every finite Condition(x) is returned exactly under x > ConditionTolerance (the one tolerance object), Condition(+Inf) only under a failed status, and receivers that store a cond estimate report it. STRIDE on the factorization files (a strided right-hand side or update vector is addressed with its own increment; its Data is treated as contiguous only under a test of Inc). FACT.normorder — the norm handed to a LAPACK condition estimator is computed before the in-place factorization of the same storage (found and repaired: BandCholesky.Cond used the norm of the factor); FACT.state — Clone/Scale/SymRankOne/ExtendVecSym/RankOne, which rebuild the receiver from another value of the same type, assign every field (found and repaired: LU.RankOne into a fresh receiver left ok == false, so Det was 0 and SolveTo failed); FACTKIND.pair — mat.QR and mat.LQ hand their tau field only to the lapack64 routines of the family that filled it; FACT.condunit — the reciprocal condition number returned by the lapack64 *con estimators reaches a comparison with ConditionTolerance, a Condition(...) conversion or a cond field only through an odd number of inversions (found and repaired: TriDense.InverseTri and TriDense.SolveTo compared rcond itself with the tolerance and never reported an ill-conditioned matrix); NILRECV on the factorization files. Does NOT decide reconstruction identities, update formulas or the numerical consistency of Det/LogDet/Cond across factorizations.",
 		assumptions: commonAssumptions,
 		run: func(tier string, res *core.Result) {
 			r := okflow.Run(def, core.Pkgs("./mat", "./lapack/lapack64", "./lapack/gonum"))
@@ -368,6 +373,9 @@ func init() {
 			st := stride.Run(def, core.Scope{Patterns: []string{"./mat"}, Files: func(rel string) bool { return anch[rel] }})
 			st.Floor("index_sites", 60)
 			res.Merge(st)
+			fk := factkind.Run(def, "./mat")
+			fk.Floor("field_consumers", 5)
+			res.Merge(fk)
 			fx := factx.Run(def)
 			fx.Floor("condition_estimator_calls", 7)
 			fx.Floor("condition_sinks", 9)
@@ -603,6 +611,8 @@ func dump(argv []string) {
 		res = config.Run(config.Matrix(tier), pk)
 	case "graphorder":
 		res = graphinv.RunOrder(def)
+	case "factkind":
+		res = factkind.Run(def, argv[1:]...)
 	case "global":
 		res = globalx.Run(def, core.Pkgs(argv[1:]...), globalx.Options{})
 	case "arms":
